@@ -543,7 +543,7 @@ func init() {
 	register(&Property{
 		ID:    "C01",
 		Level: "other",
-		Rules: []Rule{{"S-valid", ruleSetValidation}, {"S-lookup", ruleLookup}, {"S-algebra", ruleClients}, {"T-order/T-heap", ruleTOrderHeap}, {"T-contract", ruleTContracts}, {"T-lin", ruleTLin}, {"T-agg", ruleTAgg}, {"K6", ruleK6}, {"O1", ruleO1}, {"O2b", ruleO2b}, {"V7", ruleV7}, {"V8", ruleV8}},
+		Rules: []Rule{{"S-valid", ruleSetValidation}, {"S-lookup", ruleLookup}, {"S-algebra", ruleClients}, {"T-order/T-heap", ruleTOrderHeap}, {"T-contract", ruleTContracts}, {"T-lin", ruleTLin}, {"T-agg", ruleTAgg}, {"K6", ruleK6}, {"O1", ruleO1}, {"O2b", ruleO2b}, {"V7", ruleV7}, {"V8", ruleV8}, {"Y1", ruleLayoutItemHeader}, {"Y6", ruleLayoutItemRecord}},
 		Explanation: "(a) S-valid: the guards dominating SetItem's first effect (pin/allocation/AddRef/union/publish) are evaluated over an interval domain: exactly 1 <= len(Key) <= 65535, Key and Val non-nil, Priority >= 0, and every rejecting arm returns a fresh error; all other effects are dominated by the first. (b) S-lookup: GetItem moves left only where the guards establish key < node key, right only where key > node key, and returns a non-nil item only where both are excluded (the node's own item); compare(key, item.Key) argument order; Min/Max choosers unconditionally follow left/right; walk returns the item of the node whose chosen child is empty. (c) S-algebra: SetItem publishes union(pinned root, leaf(new item)) with the new item as second operand (it wins on equal keys) against the version it pinned; Delete publishes join(SL(root,key), SR(root,key)) and reports true only where the middle is non-empty and the publish succeeded; the algebra itself (search order, nothing lost or duplicated, exact aggregates, bound contracts) is proved by C13's rules, included here. (d) GetTotals returns the pinned root's aggregates. NOT decided: equality of every return value with a reference map over histories interleaved with Flush / eviction / reopen (the structural preconditions of those are W1, C14, C02).",
 		ControlSrc:   "package gkvlite\n",
 		ControlEdits: []ControlEdit{{"Collection.SetItem", "if item.Priority == 7 { t.rootAddRef() }"}},
